@@ -284,8 +284,8 @@ pub fn type_weights() -> Vec<(u32, MsgId)> {
         (3, MsgId::Paths),
         (2, MsgId::Tup),
         (1, MsgId::UnitS),
-        (4, MsgId::Wide),
-        (4, MsgId::Holder2),
+        (3, MsgId::Wide),
+        (3, MsgId::Holder2),
     ]
 }
 
